@@ -550,7 +550,7 @@ fn main() {
           stuck = 0;
           last = cur;
         }
-        if stuck >= 8 && cur.0 < total {
+        if stuck >= 120 && cur.0 < total {
           let out = io::stdout();
           let mut o = out.lock();
           let p = partial.lock().unwrap().clone();
